@@ -516,6 +516,7 @@ type Contract struct {
 	Opaque   map[string]bool // callees to treat as opaque even if contracted
 	Inline   bool
 	AssumeAfter map[string][]*Clause // label -> assumptions made right after a watched call returns (listed)
+	Uses     []string // lemmas (proved separately) assumed at entry
 	FreshResult bool // the (single, pointer) result is a freshly allocated object no one else references
 	Stable   []string // locations assumed not to be written by opaque callees (listed assumption)
 }
@@ -673,6 +674,12 @@ func (cs *ContractSet) LoadContractFile(path, pkgPath string, assumed bool) erro
 			cur.NoOvf = true
 		case "mode":
 			cur.Mode = rest
+		case "uses":
+			for _, a := range splitTop(rest, ',') {
+				if a = strings.TrimSpace(a); a != "" {
+					cur.Uses = append(cur.Uses, a)
+				}
+			}
 		case "opaque":
 			cur.Opaque[rest] = true
 		case "assume":
